@@ -48,9 +48,17 @@ def date_of_spec(today: dt.date, spec: str) -> dt.date:
     return add_months(today, 12 * n)
 
 
+def _valid_short(v: str) -> bool:
+    try:
+        dt.date(2000 + int(v[:2]), int(v[2:4]), int(v[4:]))
+        return True
+    except ValueError:
+        return False
+
+
 def vtype_of(v: str) -> str:
     body = v[1:] if v.startswith("-") else v
-    if (len(v) == 6 and v.isdigit()) or (len(v) == 10 and v[4] == "-" and v[7] == "-" and v.replace("-", "").isdigit()) or (
+    if (len(v) == 6 and v.isdigit() and _valid_short(v)) or (len(v) == 10 and v[4] == "-" and v[7] == "-" and v.replace("-", "").isdigit()) or (
         len(body) > 1 and body[:-1].isdigit() and body[-1].lower() in "dmy"
     ):
         return "DATE"
@@ -119,7 +127,7 @@ def gen_atom(rng, today, depth, feats):
         elif rv < 0.35:
             txt = val = "%04d-%02d-%02d" % (rng.randint(2000, 2030), rng.randint(1, 12), rng.randint(1, 28))
         elif rv < 0.5:
-            txt = val = rng.choice(["0", "10", "42", "007", "2024", "100000"])
+            txt = val = rng.choice(["0", "10", "42", "007", "2024", "987654"])
         elif rv < 0.6:
             txt = val = rng.choice(["1", "5", "9"])  # single digits 1-9 are literal tokens (parser recovers)
             feats.add("prop_single_digit")
